@@ -459,7 +459,7 @@ func tb4Tags(p *core.Prog, rep *core.Report) {
 			continue
 		}
 		bo, ok := iff.Cond.(*ssa.BinOp)
-		if !ok || bo.Op != token.NEQ {
+		if !ok || (bo.Op != token.NEQ && bo.Op != token.EQL) {
 			continue
 		}
 		_, isParam := bo.Y.(*ssa.Parameter)
@@ -467,7 +467,11 @@ func tb4Tags(p *core.Prog, rep *core.Report) {
 		if !isParam || f == nil || !isByte(f.Type()) {
 			continue
 		}
-		for _, r := range dominatedReturns(b.Succs[0]) {
+		mismatch := b.Succs[0]
+		if bo.Op == token.EQL {
+			mismatch = b.Succs[1]
+		}
+		for _, r := range dominatedReturns(mismatch) {
 			if u, ok := core.ReturnOperand(r, 1).(*ssa.UnOp); ok {
 				if g, ok := u.X.(*ssa.Global); ok && g.Name() == "ErrWrongTypeOperation" {
 					okm = true
@@ -476,6 +480,53 @@ func tb4Tags(p *core.Prog, rep *core.Report) {
 		}
 	}
 	rep.Check(okm, "TB4", "wrong-type-edge:"+core.FuncKey(lookup), "the lookup returns ErrWrongTypeOperation on the stored-tag != requested-tag edge", p.Pos(lookup.Pos()), "no return of ErrWrongTypeOperation under the tag-mismatch test", true)
+	// TB4c: the tag test is the FIRST decision taken on stored metadata. A branch on another stored field (size,
+	// expiry) taken before it lets a key of another type through: for a String record those "fields" are decoded from
+	// the user's value bytes (a one-byte value decodes to size 0).
+	var tagIf *ssa.If
+	var tagField *types.Var
+	for _, b := range lookup.Blocks {
+		iff, ok := b.Instrs[len(b.Instrs)-1].(*ssa.If)
+		if !ok {
+			continue
+		}
+		bo, ok := iff.Cond.(*ssa.BinOp)
+		if !ok || (bo.Op != token.NEQ && bo.Op != token.EQL) {
+			continue
+		}
+		_, isParam := bo.Y.(*ssa.Parameter)
+		f, _ := core.LoadedField(bo.X)
+		if isParam && f != nil && isByte(f.Type()) {
+			tagIf, tagField = iff, f
+		}
+	}
+	if tagIf == nil {
+		rep.Unk("TB4", "tag-test-first:"+core.FuncKey(lookup), "the tag test is the first decision on stored metadata", p.Pos(lookup.Pos()), "tag test not found")
+	} else {
+		bo := tagIf.Cond.(*ssa.BinOp)
+		okEdge := bo.Op == token.EQL // edge index on which the tags are equal
+		var early []string
+		for _, b := range lookup.Blocks {
+			for _, in := range b.Instrs {
+				u, ok := in.(*ssa.UnOp)
+				if !ok {
+					continue
+				}
+				f, base := core.LoadedField(u)
+				if f == nil || f == tagField || fieldOwnerStruct(f) != fieldOwnerStruct(tagField) {
+					continue
+				}
+				// only loads from a decoded (not freshly built) object matter
+				if freshInFn(base, lookup) {
+					continue
+				}
+				if !edgeDominates(tagIf, okEdge, b) {
+					early = append(early, "stored field "+f.Name()+" is read at "+p.InstrPos(in)+" before / beside the tag test")
+				}
+			}
+		}
+		rep.Check(len(early) == 0, "TB4", "tag-test-first:"+core.FuncKey(lookup), "no other stored metadata field is looked at until the tag matched", p.InstrPos(tagIf), strings.Join(sortedStr(early), "; ")+": a key of another type whose bytes happen to decode that way bypasses the wrong-type reply", true)
+	}
 	// String commands
 	set, get := p.MustMethod(svc, "Set"), p.MustMethod(svc, "Get")
 	okSet, okGet := false, false
@@ -521,6 +572,7 @@ func C19(p *core.Prog, rep *core.Report) {
 	metadataCodec(p, rep)
 	tb4Tags(p, rep)
 	list1Deque(p, rep)
+	dt1ExistenceByError(p, rep)
 	// S4: every structure update is a batch: the batch durability clauses (C04) apply
 	v := newVF(p, rep)
 	v.vf3Tagging()
@@ -923,4 +975,32 @@ func C20(p *core.Prog, rep *core.Report) {
 	})
 	rep.Notes = append(rep.Notes, "staticcheck SA4009 in CopyDir (walk error overwritten) is cosmetic for this property: a non-nil walk error has a nil info, i.e. a nil dereference on an unreadable entry; outside the property's quantifier")
 	rep.NotCovered = append(rep.NotCovered, "equality of the copy's mapping with the source's at backup time; the source remaining usable for all later histories")
+}
+
+// fieldOwnerStruct: the struct type a field variable belongs to, identified by the field's position in its package
+// scope (fields of one struct share the struct literal's position range); resolved by scanning named structs.
+var fieldOwnerCache = map[*types.Var]*types.Struct{}
+
+func fieldOwnerStruct(f *types.Var) *types.Struct {
+	if st, ok := fieldOwnerCache[f]; ok {
+		return st
+	}
+	if f.Pkg() == nil {
+		return nil
+	}
+	sc := f.Pkg().Scope()
+	for _, name := range sc.Names() {
+		tn, ok := sc.Lookup(name).(*types.TypeName)
+		if !ok {
+			continue
+		}
+		st, ok := tn.Type().Underlying().(*types.Struct)
+		if !ok {
+			continue
+		}
+		for i := 0; i < st.NumFields(); i++ {
+			fieldOwnerCache[st.Field(i)] = st
+		}
+	}
+	return fieldOwnerCache[f]
 }
